@@ -23,6 +23,11 @@ pub enum Op {
     ReloadSwap,
     /// merge the fixed right tree no. k at `left`
     Merge(u8, usize),
+    /// merge a right graph that is the fixed tree no. k plus a stray present vertex nothing leads
+    /// to: the call has to return Err (C12). No property pins down what the left graph holds after
+    /// the refusal (the graft, nothing, or part of it), so the model takes the left graph as it is
+    /// found afterwards and the history goes on from there: whatever it is, it has to keep obeying C01-C05.
+    MergeFail(u8, usize),
 }
 
 impl Op {
@@ -37,6 +42,7 @@ impl Op {
             Op::CloneSwap => "g=g.clone()".into(),
             Op::ReloadSwap => "g=load(save(g))".into(),
             Op::Merge(k, l) => format!("merge(H{k},left={l})"),
+            Op::MergeFail(k, l) => format!("merge(H{k}+stray,left={l})=Err"),
         }
     }
 }
@@ -139,7 +145,7 @@ impl Model {
             Op::Put(v, _) | Op::Data(v) => self.present.contains_key(v),
             Op::NextId | Op::AddNext => self.has_free_id(impl_pos),
             Op::CloneSwap | Op::ReloadSwap => true,
-            Op::Merge(k, left) => self.merge_enabled(&fixed_tree(*k), *left, impl_pos),
+            Op::Merge(k, left) | Op::MergeFail(k, left) => self.merge_enabled(&fixed_tree(*k), *left, impl_pos),
         }
     }
 
@@ -333,6 +339,30 @@ impl Model {
         }
     }
 
+    /// Take the present vertices as they were observed (after a call whose effect on the graph no
+    /// property pins down). `observed`: id -> (edges, datum, unread, group tag of the
+    /// implementation or None). Groups are renumbered; ids that appeared count as handed out.
+    pub fn adopt_observed(&mut self, observed: BTreeMap<usize, (Vec<(u8, usize)>, Option<u8>, bool, Option<usize>)>) {
+        let mut ren: BTreeMap<usize, usize> = BTreeMap::new();
+        let mut present = BTreeMap::new();
+        let appeared: Vec<usize> = observed.keys().filter(|v| !self.present.contains_key(v)).copied().collect();
+        for (v, (edges, data, unread, tag)) in observed {
+            let group = tag.map(|t| {
+                *ren.entry(t).or_insert_with(|| {
+                    let g = self.next_group;
+                    self.next_group += 1;
+                    g
+                })
+            });
+            present.insert(v, MV { edges, data, unread, group });
+        }
+        self.present = present;
+        for v in appeared {
+            self.graves.remove(&v);
+            self.note_returned(v);
+        }
+    }
+
     pub fn note_returned(&mut self, id: usize) {
         if self.track_returned {
             self.returned.insert(id);
@@ -399,7 +429,7 @@ impl Model {
                 self.pos = 0;
                 self.returned.clear();
             }
-            Op::NextId | Op::AddNext | Op::Merge(..) => unreachable!("handled by the caller"),
+            Op::NextId | Op::AddNext | Op::Merge(..) | Op::MergeFail(..) => unreachable!("handled by the caller"),
         }
         ex
     }
